@@ -25,7 +25,8 @@ RULE = ('Generated sessions (3-6 symbols with hash-diverse names, dense markets 
         'ids), equity curve and recorded target allocations incl. column order, all by repr - must be identical '
         'everywhere. Non-trivial = >= 3 assets and >= 1 rebalance producing >= 2 fills; the same-instant-entry / tie '
         'class is counted separately.'
-        " Part `reuse` (in-process): a fresh run against a run on a data-handler object that already served another session, with one symbol's file starting inside the session and the asset joining the universe shortly before its first bar; and sessions that build their own handler from the current directory after a backtest was run from another directory. Alpha kinds also include rotating weight vectors and a model reading the data source's range query.")
+        " Part `reuse` (in-process): a fresh run against a run on a data-handler object that already served another session, with one symbol's file starting inside the session and the asset joining the universe shortly before its first bar; and sessions that build their own handler from the current directory after a backtest was run from another directory. Alpha kinds also include rotating weight vectors and a model reading the data source's range query."
+        " Round-10 reach: a third of the markets quote unrounded doubles (seventeen significant digits), half of them below 1.")
 ASSUMPTIONS = [
     'hash seeds 0-3 (quick) / 0-4 plus one derived from VERIF_SEED (thorough)',
     'order identifiers (uuid4) are excluded from the comparison, as the statement says',
@@ -420,6 +421,12 @@ def cases(draw, late=False):
                 e_ = cut_ - D.timedelta(days=draw(st.integers(0, 3)))
                 cfg['universe']['dates']['EQ:' + s_] = [e_.year, e_.month, e_.day, 0, 0, 0]
                 lab = lab + ['member_before_its_first_bar']
+    if draw(st.sampled_from([False, False, True])):
+        # a vendor quoting unrounded prices: every cell carries all seventeen significant digits of a double
+        # (in half of them the prices are those of penny stocks: eighteen and more decimal places)
+        f_ = draw(st.sampled_from([1.0000001234567891, 0.0010000001234567891]))
+        mk = {s: [r[:3] + [None if x is None else x * f_ for x in r[3:]] for r in rows] for s, rows in mk.items()}
+        lab = lab + ['prices_with_seventeen_significant_digits' + ('_below_one' if f_ < 1 else '')]
     return {'cfg': cfg, 'market': mk, 'labels': lab, 'two_sources': draw(st.sampled_from([False, False, True]))}
 
 
